@@ -344,6 +344,9 @@ func init() {
 		}
 	}
 	c13GenTraces = func(g *Gen, n int) {
+		if n <= 0 {
+			return
+		}
 		cases := c13Cases(g)
 		if len(cases) == 0 {
 			return
